@@ -10,11 +10,11 @@ import (
 )
 
 type sentGen struct {
-	ts     *TreeSpec
-	force  map[string]int // choice point -> option
-	seen   map[string]int // choice point -> number of options
-	depth  int
-	idn    int
+	ts    *TreeSpec
+	force map[string]int // choice point -> option
+	seen  map[string]int // choice point -> number of options
+	depth int
+	idn   int
 }
 
 var identPool = []string{"A", "B", "x", "y", "k", "body"}
